@@ -855,7 +855,7 @@ def _c05_hook(tier, seed):
     # (1)
     try:
         rng = random.Random(seed + 5)
-        n_cases = 45 if tier == "quick" else 8000
+        n_cases = 160 if tier == "quick" else 8000
         cases = gen_cases(rng, n_cases)
         seen = set()
         n_eval = 0
@@ -882,7 +882,7 @@ def _c05_hook(tier, seed):
         res["distinct"] += len(seen)
         res["bounded"].append({
             "what": "end-to-end: compiled GPOS (both kern writers) evaluated per script/language system by an independent PairPos interpreter == quantize(lookupKerningValue), applied at most once, RTL placement",
-            "bound": f"{len(seen)} generated UFOs (<= ~16 glyphs, 1-3 scripts of Latn/Grek/Cyrl/Armn/Hebr/Arab/Deva/Hrkt + digits/punctuation/marks/GSUB alternates), {n_eval} (script, language, glyph pair) evaluations",
+            "bound": f"{len(seen)} generated UFOs (<= ~16 glyphs, 1-5 scripts of Latn/Grek/Cyrl/Armn/Hebr/Arab/Deva/Hrkt + digits/punctuation/marks/GSUB alternates), {n_eval} (script, language, glyph pair) evaluations",
             "failures": len(reported),
         })
     except Exception:
